@@ -15,8 +15,13 @@ package fzf
 //                         Terminal.buildPlusList + Terminal.replacePlaceholder, expansion handed to the real shells
 //   TestVerifShellRecord  J: random long inputs through the same code, the expansion run by the real
 //                         Executor.ExecCommand; one record per input for Judge_Shell
-//   TestVerifShellTmux    J: the real fzf binary with --tmux, a stand-in `tmux` that runs the generated script and a
-//                         stand-in child (this test binary, see init) that records argv and environment
+//                         (both under the --delimiter and print separator of the case / record; the temporary files of
+//                         file placeholders are read before they are removed, their paths replaced by the FILE byte)
+//   TestVerifShellTmux    J: the real fzf binary with --tmux, a stand-in `tmux` that keeps the generated script and runs
+//                         it with the real sh from an environment without the caller's entries, and a stand-in child
+//                         (this test binary, see init) that records argv and environment; environments with hostile NAMES
+//   TestVerifShellEnv     E: one environment entry from MC_ShellEnv per `fzf --tmux` run: export part of the script,
+//                         environment of the re-launched process, whether anything else ran
 //
 // Nothing here decides anything: the harness reports what the code and the shells produced; the expected values come
 // from TLC (E) or the records are judged by TLC (J).
